@@ -550,7 +550,8 @@ class DecisionInterp:
                     scope = 'deps' if coll == roles.deps else \
                         'hard' if coll == roles.hard else None
                     if scope is not None:
-                        return ('agg', summ['kind'], summ['clock'], scope)
+                        return ('agg', summ['kind'], summ['clock'], scope,
+                                summ.get('absent', 'unknown'))
         return None
 
     def _return(self, func, stmt, roles, state, depth):
@@ -645,7 +646,48 @@ def clock_aggregate_summary(func):
             else:
                 kinds.add('unknown')
     kind = kinds.pop() if len(kinds) == 1 else 'unknown'
-    return {'kind': kind, 'clock': clock, 'collection': coll}
+    # what happens when ONE element has no clock?
+    #   'all'      the helper answers None at once (the clocks of the other
+    #              elements are not looked at)
+    #   'skip-nonrun'  elements that never ran (skipped / failed status test)
+    #              are passed over, any other clockless element answers None
+    #   'skip-any' clockless elements are passed over
+    absent = 'unknown'
+    for node in ast.walk(func.node):
+        if isinstance(node, ast.For) and isinstance(node.iter, ast.Name) and \
+                node.iter.id == coll:
+            for test in ast.walk(node):
+                if not (isinstance(test, ast.If) and isinstance(
+                        test.test, ast.Compare) and isinstance(
+                            test.test.ops[0], ast.Is) and isinstance(
+                                test.test.comparators[0], ast.Constant) and
+                        test.test.comparators[0].value is None):
+                    continue
+                returns_none = any(
+                    isinstance(s, ast.Return) and (s.value is None or (
+                        isinstance(s.value, ast.Constant) and
+                        s.value.value is None)) for s in test.body)
+                passes = [s for s in ast.walk(test) if isinstance(
+                    s, ast.Continue)]
+                guarded_pass = any(
+                    isinstance(i, ast.If) and any(
+                        isinstance(c, ast.Continue) for c in i.body) and any(
+                            w in ast.unparse(i.test)
+                            for w in ('is_skipped', 'is_failed', 'SKIPPED',
+                                      'FAILED'))
+                    for i in test.body if isinstance(i, ast.If))
+                if returns_none and guarded_pass:
+                    absent = 'skip-nonrun'
+                elif returns_none:
+                    absent = 'all'
+                elif passes:
+                    absent = 'skip-any'
+        if isinstance(node, (ast.GeneratorExp, ast.ListComp)) and any(
+                'is not None' in ast.unparse(i)
+                for gen in node.generators for i in gen.ifs):
+            absent = 'skip-any'
+    return {'kind': kind, 'clock': clock, 'collection': coll,
+            'absent': absent}
 
 
 def read_members(program):
